@@ -200,7 +200,12 @@ theorem ssim_runLoop : ∀ (fuel : Nat) (xb xs : Session), SSim c xb xs → SGoo
             · split
               · exact sgood_of_eq hgy hb' rfl (by intro e2 he2; cases he2) (by intro h; cases h)
               · exact sgood_of_eq hgy hb' rfl (by intro e2 he2; cases he2) (by intro h; cases h)
-          exact ih _ _ hrel hgrel
+          have hfr : xs.enc.isNone = xb.enc.isNone := by
+            rcases h.enc with ⟨q1, q2⟩ | ⟨_, _, q1, q2, _⟩ <;> rw [q1, q2] <;> rfl
+          rw [hfr]
+          by_cases hfresh : xb.enc.isNone = true
+          · simp only [hfresh, if_true]; exact ⟨trivial, hrel⟩
+          · simp only [hfresh, Bool.false_eq_true, if_false]; exact ih _ _ hrel hgrel
 
 /-- one API call on both sides -/
 theorem ssim_step {xb xs : Session} (h : SSim c xb xs) (hg : SGood c aL aS nL n xb) (op : Op) :
